@@ -32,7 +32,9 @@ RULE = ("Scenario = (user-object kind x how tensors are held x which require gra
         "[method, pre-built PureFunction, sibling, multi-sibling, callable object wrapping the actor] x history of 1-4 operations on the same objects "
         "[forward of a functional+method; backward / graph-recording backward / second backward of any live result; "
         "each optionally inside enable_debug/disable_debug wrappers and inside 0-3 harness-opened nested "
-        "substitutions with identical, fresh or aliased (one tensor for several parameters) tensors]). One fault-free reference execution counts the N entries "
+        "substitutions with identical, fresh or aliased (one tensor for several parameters) tensors, or torch's own "
+        "functional_call reparametrisation; between operations the caller may rebind a tensor or freeze a Parameter into a "
+        "buffer / plain attribute; one scenario in twelve is a dense operator in the exact solver with LAPACK failing once]). One fault-free reference execution counts the N entries "
         "into the user's callees; then one faulted execution per crash point k (quick: k in {1,2,3,N-1,N} + 8 "
         "drawn; thorough: every k in 1..N) with InjectedFault(Exception) or InjectedAbort(BaseException). "
         "A case is non-trivial iff the fault fired while a substitution was installed (object slots differ from "
